@@ -1177,3 +1177,124 @@ Proof.
       split; [|rewrite N.add_assoc; exact Hcont2].
       right. apply HRv; cbn [m_l m_quote mset_quote mset_lp]; lcbn; auto.
 Qed.
+
+(* ---- one iteration of the main loop ---- *)
+Lemma Rel_ctx st rs : Rel st rs ->
+  l_ctx (m_l st) = HTML \/ l_ctx (m_l st) = gen_ContextTag \/ l_ctx (m_l st) = gen_ContextQuotedAttr.
+Proof. destruct rs; cbn; try contradiction; intros H; [left|right; left|right; right]; apply H. Qed.
+
+Lemma scan_body_sim w st :
+  Coupled w st ->
+  psafeT (scan_body U false HTML true st) (fun x => match x with Again s' => Coupled w s' | Stop s' => shows (m_l s') = w end).
+Proof.
+  intros (Hp & Hby & rs & rf & acc & Hsh & HR & Href). unfold scan_body. cbv zeta.
+  destruct (N.ltb_spec (m_p st) (len (m_l st))) as [Hlt|Hge]; cbn [negb].
+  2:{ cbn [psafeE]. assert (Hnil : rest st = []).
+      { unfold rest, drop, len in *. assert (m_p st = nlen (l_src (m_l st))) by lia. rewrite H, nlen_eq, Nat2N.id. apply skipn_all. }
+      rewrite Hnil in Href. rewrite (ref_nil _ _ _ _ _ Href). exact Hsh. }
+  destruct (rest_cons st Hlt) as (c & r & Hrest & Hgc & Hr).
+  destruct HR as [Hnil|HR]; [rewrite Hrest in Hnil; discriminate|].
+  assert (Hnr : not_raw rs) by (destruct rs; try contradiction; exact I).
+  pget c' Hc'. rewrite Hgc in Hc'. injection Hc' as <-.
+  destruct (ctx_not_md _ (Rel_ctx _ _ HR)) as (_ & _ & Nmd). apply N.eqb_neq in Nmd. rewrite Nmd. cbn [andb].
+  (* the byte after an opening brace *)
+  eapply psafe_bind with (Q' := fun d : option N => (forall x, d = Some x -> c = 123 /\ get (l_src (m_l st)) (m_p st + 1) = Some x) /\
+                                                    (d = None -> c <> 123 \/ len (m_l st) <= m_p st + 1)).
+  { destruct (N.eqb_spec c 123) as [->|N123]; cbn [andb]; [|cbn; split; [discriminate|auto]].
+    destruct (N.ltb_spec (m_p st + 1) (len (m_l st))); [|cbn; split; [discriminate|auto]].
+    pget x Hx. cbn. split; [intros y E; injection E as <-; auto|discriminate]. }
+  intros d [Hd1 Hd2].
+  assert (Hhd : forall x, hd_is r x = match get (l_src (m_l st)) (m_p st + 1) with Some y => y =? x | None => false end)
+    by (intros x; rewrite Hr; apply hd_is_get).
+  rewrite Hrest in Href. change (negb false) with true. rewrite andb_true_r.
+  destruct (oeq d 123) eqn:E123.
+  { (* a show *)
+    destruct d as [x|]; [|discriminate]. cbn [oeq] in E123. apply N.eqb_eq in E123. subst x. destruct (Hd1 123 eq_refl) as [-> Hg1].
+    assert (Hlt1 : m_p st + 1 < nlen (l_src (m_l st))) by (apply get_some in Hg1; exact Hg1).
+    destruct (drop_cons_get _ _ Hlt1) as (b & body & Hdb & Hgb). rewrite Hg1 in Hgb. injection Hgb as <-.
+    assert (Hrest2 : rest st = 123 :: 123 :: body) by (rewrite Hrest, Hr, Hdb; reflexivity).
+    rewrite <- Hrest in Href. eapply psafe_mono; [apply (show_step w st rs rf acc body Hp Hby Hsh HR Hrest2 Href)|intros [s'|s']; [auto|intros []]]. }
+  assert (Hns : (c =? 123) && hd_is r 123 = false).
+  { destruct (N.eqb_spec c 123) as [->|_]; [|reflexivity]. cbn [andb]. rewrite Hhd.
+    destruct d as [x|]; [destruct (Hd1 x eq_refl) as [_ Hg]; rewrite Hg; exact E123|].
+    destruct (Hd2 eq_refl) as [C|Hl]; [congruence|]. destruct (get (l_src (m_l st)) (m_p st + 1)) eqn:Eg; [|reflexivity].
+    apply get_some in Eg. unfold len in Hl. lia. }
+  (* statements and comments are outside the fragment *)
+  assert (Hstmt : forall k, (k = 37 \/ k = 35) -> oeq d k = true -> False).
+  { intros k Hk Ek. destruct d as [x|]; [|discriminate]. cbn [oeq] in Ek. apply N.eqb_eq in Ek. subst x. destruct (Hd1 k eq_refl) as [-> Hg].
+    destruct rf as [|rf']; [discriminate|]. rewrite (ref_run2_eq _ _ _ _ _ _ Hnr), Hns in Href.
+    assert (E : (123 =? 123) && (hd_is r 37 || hd_is r 35) = true).
+    { cbn [andb N.eqb Pos.eqb]. rewrite !Hhd, Hg. destruct Hk as [-> | ->]; [reflexivity|apply orb_true_r]. }
+    rewrite E in Href. discriminate. }
+  destruct (oeq d 37) eqn:E37; [exfalso; apply (Hstmt 37); auto|].
+  destruct (oeq d 35) eqn:E35; [exfalso; apply (Hstmt 35); auto|].
+  eapply psafe_bind with (Q' := fun _ => True).
+  { destruct (c =? 35); cbn [andm]; [|exact I]. destruct (m_p st + 1 <? len (m_l st)); cbn [andm]; [|exact I].
+    unfold idx_is, idx. destruct (get (l_src (m_l st)) (m_p st + 1)); exact I. }
+  intros bad _. destruct bad; [exact I|].
+  (* the step of the context *)
+  unfold ctx_switch. cbv zeta. rewrite Nmd.
+  destruct rs; cbn in HR; try contradiction.
+  - destruct HR as [Hctx Htctx]. rewrite Hctx. change (HTML =? HTML) with true. cbv iota.
+    eapply psafe_mono; [apply (data_step w st c r rf acc); auto; split; assumption|intros [s'|s']; [auto|intros []]].
+  - pose proof HR as (Hctx & _). rewrite Hctx. change (gen_ContextTag =? HTML) with false. change (gen_ContextTag =? gen_ContextTag) with true. cbv iota.
+    eapply psafe_mono; [apply (tag_step w st c r rf acc tag); auto|intros [s'|s']; [auto|intros []]].
+  - pose proof HR as (Hctx & _). rewrite Hctx. change (gen_ContextQuotedAttr =? HTML) with false. change (gen_ContextQuotedAttr =? gen_ContextTag) with false.
+    change ((gen_ContextQuotedAttr =? gen_ContextQuotedAttr) || (gen_ContextQuotedAttr =? gen_ContextUnquotedAttr)) with true. cbv iota.
+    eapply psafe_mono; [apply (value_step w st c r rf acc tag attr quote); auto|intros [s'|s']; [auto|intros []]].
+Qed.
+
+(* ---- the whole scan ---- *)
+Lemma same_pairs_refl a : same_pairs a a = true.
+Proof. induction a as [|[x y] t IH]; [reflexivity|]. cbn [same_pairs]. rewrite !N.eqb_refl, IH. reflexivity. Qed.
+
+Lemma shebang_none l : has_prefix (l_src l) [35; 33] = false -> shebang l = Ok l.
+Proof.
+  intros H. unfold shebang. destruct (N.ltb_spec 1 (len l)) as [Hlt|_]; [|reflexivity].
+  assert (H0 : 0 < len l) by lia. destruct (idx_ok l 0 H0) as (a & Ha & Hga). destruct (idx_ok l 1 Hlt) as (b & Hb & Hgb).
+  rewrite Ha. cbn [bind]. unfold andm. destruct (N.eqb_spec a 35) as [->|_]; [|reflexivity].
+  unfold idx_is. rewrite Hb. cbn [bind]. destruct (N.eqb_spec b 33) as [->|_]; [|reflexivity].
+  exfalso. destruct (l_src l) as [|x [|y t]]; try discriminate. unfold get in Hga, Hgb.
+  change (N.to_nat 1) with 1%nat in Hgb. change (N.to_nat 0) with 0%nat in Hga. cbn [nth_error] in Hga, Hgb.
+  injection Hga as ->. injection Hgb as ->. destruct t; vm_compute in H; discriminate H.
+Qed.
+
+Theorem scan_run_sim src want :
+  is_bytes src = true -> ref_contexts2 o src = Some want ->
+  psafeT (scan_run U false HTML src) (fun l => shows l = want).
+Proof.
+  intros Hby Href. unfold ref_contexts2 in Href. cbn [o_strict opt_html andb] in Href.
+  destruct (has_prefix src [35; 33]) eqn:Esh; [discriminate|].
+  unfold scan_run. rewrite (shebang_none (scan_start HTML src) Esh). rewrite bind_ok. cbv zeta.
+  change (l_ctx (scan_start HTML src)) with HTML. change (HTML =? gen_ContextMarkdown) with false. cbv iota. rewrite bind_ok. cbv iota beta.
+  set (st0 := mkM (scan_start HTML src) 0 _ _ _ _ 0 false 0 true).
+  assert (HC0 : Coupled want st0).
+  { unfold Coupled, st0. cbn [m_l m_p]. split; [lia|]. split; [exact Hby|]. exists RData, (S (length src)), [].
+    split; [reflexivity|]. split; [right; cbn; auto|]. exact Href. }
+  eapply psafe_bind.
+  - apply (psafe_loop (scan_body U false HTML true) (Coupled want) (fun st => shows (m_l st) = want)); [|exact HC0].
+    intros st HC. apply scan_body_sim. exact HC.
+  - intros st Hsh.
+    eapply psafe_bind with (Q' := fun l3 => shows l3 = want).
+    { destruct (0 <? len (m_l st)); [|cbn; exact Hsh]. unfold emit_text.
+      destruct (emit_at _ _ _ _ gen_tokenText (m_p st) (m_l st)) as [l3| | |] eqn:E; cbn; try exact I.
+      destruct (emit_at_sim _ _ _ _ _ _ _ _ E) as (_ & _ & _ & _ & D).
+      change (gen_tokenText =? gen_tokenLeftBraces) with false in D. rewrite app_nil_r in D. congruence. }
+    intros l3 H3. eapply psafe_bind with (Q' := fun l4 => shows l4 = want).
+    { destruct ((l_ctx l3 =? gen_ContextMarkdown) && m_url st); [|cbn; exact H3].
+      eapply psafe_mono; [apply (emit0_sim gen_tokenEndURL l3); discriminate|]. intros l4 (_ & _ & _ & D). congruence. }
+    intros l4 H4. eapply psafe_mono; [apply (emit0_sim gen_tokenEOF l4); discriminate|]. intros l5 (_ & _ & _ & D). congruence.
+Qed.
+
+(* C06 layer (B) on the sub-fragment: text, tags with quoted attributes, shows of an identifier *)
+Theorem lexer_ctx_sim_html src : is_bytes src = true -> ctx_sim_ok2 opt_html src = true.
+Proof.
+  intros Hby. unfold ctx_sim_ok2. destruct (ref_contexts2 o src) as [want|] eqn:Eref; [|reflexivity].
+  pose proof (scan_run_sim src want Hby Eref) as Hs.
+  pose proof (lexer_no_fault U false HTML src) as Hnf. pose proof (lexer_terminates U false HTML src) as Hnt.
+  unfold scan_template in *. destruct (scan_run U false HTML src) as [l|l| |].
+  - cbn in Hs. unfold shows in Hs. rewrite Hs. apply same_pairs_refl.
+  - reflexivity.
+  - congruence.
+  - congruence.
+Qed.
